@@ -4,6 +4,7 @@ package mimetype
 
 import (
 	"fmt"
+	"strings"
 	"testing"
 
 	"github.com/gabriel-vasile/mimetype/internal/magic"
@@ -183,6 +184,13 @@ func c09GenMutant(t *rapid.T) c09Case {
 		}
 		doc = append(doc, rapid.SampledFrom([]string{"", "}}]", "{\"b\":2}", "x", ",", "]"}).Draw(t, "garbage")...)
 		return c09Case{H: doc, Limit: rapid.SampledFrom([]uint32{0, uint32(len(doc) + 1), 8192, 16384, uint32(len(doc)), 3072, 4096}).Draw(t, "longlim")}
+	}
+	if rapid.IntRange(0, 19).Draw(t, "tarwin") == 0 {
+		// an array whose item separator / a number sits at offsets 148..155, in a document >= 512 bytes
+		pre := "[\"" + strings.Repeat("a", rapid.IntRange(138, 146).Draw(t, "prelen")) + "\""
+		mid := rapid.SampledFrom([]string{" 01234567,2", ",01234567 ,2", " 0001750\x00,2", ",1234567,2", "   1234 ,2"}).Draw(t, "mid")
+		doc := []byte(pre + mid + ",\"" + strings.Repeat("b", 400) + "\"]")
+		return c09Case{H: doc, Limit: rapid.SampledFrom([]uint32{0, 3072, uint32(len(doc)), uint32(len(doc) + 1)}).Draw(t, "twl")}
 	}
 	doc := []byte(jGenDoc(t, rapid.IntRange(1, 4).Draw(t, "depth")).String())
 	nm := rapid.IntRange(1, 2).Draw(t, "nmut")
